@@ -251,7 +251,7 @@ Section Mer.
   Qed.
 
   (* and every error rate entering the loss is one the property admits for that sample *)
-  Theorem mer_er_admitted n m :
+  Theorem mer_er_allowed n m :
     spec_er_val (c_norm c) (c_ins c) (c_del c) (c_sub c)
       (denote (c_eos c) (c_incl c) (ref_seq bf n m ref))
       (denote (c_eos c) (c_incl c) (seq3_of bf n m hyp))
